@@ -22,18 +22,34 @@
 //!                 of the fixtures) x every join kind the dialect parses (incl. semi / anti / asof /
 //!                 natural / comma) x ON / USING / no condition x select lists x WHERE / GROUP BY /
 //!                 ORDER BY tails, alone or under CTEs, set operators, INSERT / CREATE ... AS, derived
-//!                 wrappers; under default and non-default configurations.
+//!                 wrappers; under default and non-default configurations;
+//!  * `snippet`    the repository's own cases of each rule (yaml fixtures), under the rule, `all`, and every
+//!                 non-default option value of the rule (rule alone / its group / `all`);
+//!  * `script`     2-3 statements in one file, each ended in one of nine ways (terminator on the line, on
+//!                 its own line, before / behind an inline or block comment, next statement on the same line,
+//!                 no terminator at the end of the file), statements as in the fixtures or one token group per
+//!                 line; `all` under the default configuration, every configuration of the terminator rule, a
+//!                 combined one, another rule's option; narrower selections by lot;
+//!  * `templated-*` sources of the `placeholder` templater whose rendered text parses (the configuration
+//!                 carries the templater and its parameters; source and fix output are parsed through it):
+//!                 token-level twins of rule cases / fixture statements (as is, one token group per line,
+//!                 scrambled) / generated queries - one value or a short run of tokens (`a.id`, `x + 1`)
+//!                 per placeholder, all of a random subset or exactly one -, `c04::templatise` over fixture
+//!                 statements and `c04::gen_shape`; under `all`, the case's rule / group, other selections and
+//!                 option configurations by lot.
 //! Also measures the antecedents of `C05_decomposition` on layout / capitalisation selections
 //! (diagnostic): code tokens preserved (C06), preserved up to ASCII case (C16), gap pattern unchanged.
 use std::collections::{BTreeMap, HashMap, HashSet};
 
 use serde_json::{Value, json};
+use sqruff_lib::core::config::FluffConfig;
 use sqruff_lib::core::linter::core::Linter;
 use sqruff_lib::core::linter::core::verif_hook::FIX_HOOK;
 use sqruff_lib::core::rules::base::RuleGroups;
 use sqruff_lib_core::dialects::syntax::{SyntaxKind, SyntaxSet};
 use sqruff_lib_core::parser::segments::base::{ErasedSegment, Tables};
 
+use crate::c04::{Templ, gen_shape, templatise};
 use crate::c06::{FUSION_PROBES, LAYOUT_CFGS, LayoutCfg, Linters, code_of, collapse, fnv, install_hook, lex_tokens, linter, scramble, take_rec};
 use crate::common::*;
 
@@ -735,6 +751,146 @@ fn synth_query(v: &Vocab, fr: &Frags, rng: &mut Rng) -> String {
 }
 
 
+// ------------------------------------------------------------------ class `script`
+/// How a statement of a script ends: what stands between its last token and the next statement.
+const TERMINATORS: [(&str, &str); 9] = [
+    ("plain", ";\n"),
+    ("spaced", " ;\n"),
+    ("comment-after", "; -- c\n"),
+    ("own-line", "\n;\n"),
+    ("comment-before", " -- c\n;\n"),
+    ("block-comment-after", "; /* c */\n"),
+    ("same-line", "; "),
+    ("blank-lines", "\n\n;\n\n"),
+    ("comment-both", " -- c\n; -- d\n"),
+];
+/// the statement without its terminator and what follows it
+fn strip_terminator(stmt: &str) -> &str {
+    stmt.trim_end_matches(|c: char| c.is_whitespace() || c == ';')
+}
+/// Several statements in one file; `ends[i]` indexes TERMINATORS for statement `i`, `None` for the last
+/// one = the file ends without a terminator.
+fn script(parts: &[String], ends: &[Option<usize>]) -> String {
+    let mut out = String::new();
+    for (p, e) in parts.iter().zip(ends.iter()) {
+        out.push_str(strip_terminator(p));
+        match e {
+            Some(k) => out.push_str(TERMINATORS[*k].1),
+            None => out.push('\n'),
+        }
+    }
+    out
+}
+/// one token group per line (the `explode` layout of the joint classes, no joint)
+fn exploded(toks: &[(u8, String)]) -> String {
+    with_joint(&units(toks), usize::MAX, "", true)
+}
+
+// ------------------------------------------------------------------ class `templated-*`
+/// styles of the token-level generator below: (style, text of the placeholder for a name)
+const PH_STYLES: [&str; 4] = ["colon", "dollar", "pyformat", "ampersand"];
+fn ph_text(style: &str, name: &str) -> String {
+    match style {
+        "colon" => format!(":{}", name),
+        "dollar" => format!("${{{}}}", name),
+        "pyformat" => format!("%({})s", name),
+        _ => format!("&{{{}}}", name),
+    }
+}
+fn is_word(raw: &str) -> bool {
+    let mut cs = raw.chars();
+    matches!(cs.next(), Some(c) if c.is_ascii_alphabetic() || c == '_') && cs.all(|c| c.is_ascii_alphanumeric() || c == '_')
+}
+/// a code token a parameter may stand for on its own: a word that is no keyword of the dialect, a
+/// number, a simple quoted literal
+fn is_value_token(kw: &ahash::AHashSet<&'static str>, raw: &str) -> bool {
+    if is_word(raw) {
+        return !kw.contains(raw.to_ascii_uppercase().as_str());
+    }
+    if raw.chars().all(|c| c.is_ascii_digit()) {
+        return !raw.is_empty() && raw.len() <= 9 && (raw.len() == 1 || !raw.starts_with('0'));
+    }
+    raw.len() >= 3 && raw.starts_with('\'') && raw.ends_with('\'') && raw[1..raw.len() - 1].chars().all(|c| c.is_ascii_alphanumeric() || c == '_' || c == ' ' || c == '-')
+}
+/// tokens that may sit *inside* the text one parameter stands for (`a.id`, `x + 1`, `a = b`)
+fn is_inner_token(raw: &str) -> bool {
+    matches!(raw, "." | "+" | "-" | "*" | "/" | "||" | "=" | "<" | ">" | "<>" | "!=" | ">=" | "<=" | " ")
+}
+/// The placeholder twin of a text: runs of code tokens (one value token, or several joined by dots /
+/// operators / single blanks) are replaced by placeholders whose value is the text they replace, so the
+/// template renders to the very text it was made from. `want(n)` decides for the n-th candidate run
+/// (counted from 0). A run never starts or ends against an identifier character, a dot, a quote or a
+/// bracket that would glue to it (as `c04::templatise`). Returns the template, its parameters and the
+/// number of candidate runs.
+fn templatise_toks(toks: &[(u8, String)], kw: &ahash::AHashSet<&'static str>, style: &str, rng: &mut Rng, want: &mut dyn FnMut(usize) -> bool) -> (String, Templ, usize) {
+    let glue_before = |raw: &str| matches!(raw.chars().last(), Some(c) if c.is_alphanumeric() || matches!(c, '_' | '.' | '\'' | '"' | '`' | '$' | '@' | ':' | '&' | '%' | '#' | '\\' | '{' | '['));
+    let glue_after = |raw: &str| matches!(raw.chars().next(), Some(c) if c.is_alphanumeric() || matches!(c, '_' | '.' | '\'' | '"' | '`' | '(' | '[' | ':'));
+    let mut out = String::new();
+    let mut params: Vec<(String, String)> = vec![];
+    let mut cand = 0usize;
+    let mut i = 0usize;
+    while i < toks.len() {
+        let (cls, raw) = &toks[i];
+        let free_before = i == 0 || !glue_before(&toks[i - 1].1);
+        if *cls != 0 || !is_value_token(kw, raw) || !free_before {
+            out.push_str(raw);
+            i += 1;
+            continue;
+        }
+        // the longest run from here, then cut back to a value token that stands free
+        let mut ends: Vec<usize> = vec![];
+        let mut j = i;
+        loop {
+            if toks[j].0 == 0 && is_value_token(kw, &toks[j].1) && (j + 1 == toks.len() || !glue_after(&toks[j + 1].1)) {
+                ends.push(j);
+            }
+            j += 1;
+            if j >= toks.len() || j - i > 8 {
+                break;
+            }
+            let r = &toks[j].1;
+            let inner = match toks[j].0 {
+                0 => is_value_token(kw, r) || is_inner_token(r),
+                2 => r == " ",
+                _ => false,
+            };
+            if !inner {
+                break;
+            }
+        }
+        if ends.is_empty() {
+            out.push_str(raw);
+            i += 1;
+            continue;
+        }
+        let n = cand;
+        cand += 1;
+        if !want(n) {
+            out.push_str(raw);
+            i += 1;
+            continue;
+        }
+        // mostly the single token, sometimes a longer run
+        let end = if ends.len() > 1 && rng.chance(1, 3) { ends[rng.below(ends.len())] } else { ends[0] };
+        let value: String = toks[i..=end].iter().map(|t| t.1.as_str()).collect();
+        let k = params.len() + 1;
+        let name = match rng.below(4) {
+            0 => format!("p{}", k),
+            1 => format!("param_{}", k),
+            2 => format!("a_rather_long_parameter_name_{}", k),
+            _ => format!("v{}", k),
+        };
+        out.push_str(&ph_text(style, &name));
+        params.push((name, value));
+        i = end + 1;
+    }
+    (out, Templ { style: style.to_string(), regex: None, params, api: rng.chance(1, 5) }, cand)
+}
+/// the rule a yaml fixture file of the repository is about (`LT01-commas.yml` -> `LT01`)
+fn snippet_rule(file: &str) -> String {
+    file.chars().take(4).collect()
+}
+
 // ------------------------------------------------------------------ failure class
 fn abstract_token(kw: &ahash::AHashSet<&'static str>, raw: &str) -> String {
     let up = raw.to_ascii_uppercase();
@@ -782,7 +938,7 @@ fn code_neutral(before: &ErasedSegment, after: &ErasedSegment) -> bool {
 /// only moved layout (or when no single batch can be blamed), where the parser gives up on its output; a
 /// batch that rewrote code is classed by the rule alone (what such a rule writes, and hence where the
 /// parser stops, varies with every input).
-fn culprit(lt: &Linter, sql: &str, fixed: &str) -> (String, Option<String>) {
+fn culprit(lt: &Linter, sql: &str, fixed: &str) -> (String, Option<String>, Option<String>) {
     install_hook();
     let _ = catch(|| {
         let lf = lt.lint_string(sql, None, true);
@@ -790,16 +946,36 @@ fn culprit(lt: &Linter, sql: &str, fixed: &str) -> (String, Option<String>) {
     });
     let rec = take_rec();
     FIX_HOOK.with(|h| *h.borrow_mut() = None);
+    let final_raw = rec.end.as_ref().or(rec.start.as_ref()).map(|t| t.raw().to_string());
     let mut checked: HashMap<String, bool> = HashMap::new();
+    // a batch whose text no longer reads as its tree (two created tokens fused into one, code that now
+    // sits behind an inline comment): the text may still parse, as something else; the batch that makes
+    // the difference visible to the parser later is then not the one to blame
+    let mut disagrees: Option<&'static str> = None;
     for b in rec.batches.iter().filter(|b| b.accepted) {
         let text = b.after.raw().to_string();
+        let neutral = code_neutral(&b.before, &b.after);
+        if std::env::var("SQV_SHOW").is_ok() {
+            eprintln!("BATCH pass {} {} ({} fixes): {:?}", b.pass, b.rule, b.fixes.len(), text);
+        }
         let ok = *checked.entry(text.clone()).or_insert_with(|| parses_cleanly(lt, &text));
         if !ok {
-            let sig = if code_neutral(&b.before, &b.after) { Some(breakage_signature(lt, &text)) } else { None };
-            return (b.rule.to_string(), sig);
+            if let Some(rule) = disagrees {
+                return (rule.to_string(), None, final_raw);
+            }
+            let sig = if neutral { Some(breakage_signature(lt, &text)) } else { None };
+            return (b.rule.to_string(), sig, final_raw);
+        }
+        if disagrees.is_none() {
+            let leaves: Vec<String> = b.after.get_raw_segments().iter().filter(|s| s.is_code() && !s.raw().is_empty()).map(|s| s.raw().to_string()).collect();
+            if let Ok(toks) = lex_tokens(lt, &text) {
+                if code_of(&toks) != leaves {
+                    disagrees = Some(b.rule);
+                }
+            }
         }
     }
-    ("unknown".into(), Some(breakage_signature(lt, fixed)))
+    ("unknown".into(), Some(breakage_signature(lt, fixed)), final_raw)
 }
 /// the option lines of `rule`'s own section in a configuration body ("" when it has none)
 fn rule_options_in(body: &str, rule: &str) -> String {
@@ -824,23 +1000,84 @@ struct Item {
     sel: String,
     cfg: &'static LayoutCfg,
     sql: String,
+    /// the source is a template of the `placeholder` templater with these parameters
+    templ: Option<Templ>,
+}
+fn templ_json(t: &Templ) -> Value {
+    json!({"style": t.style, "regex": t.regex, "params": t.params, "api": t.api})
+}
+fn item_json(it: &Item) -> Value {
+    let mut v = json!({"cls": it.cls, "dialect": it.dialect, "rules": it.sel, "cfg": it.cfg.name, "cfg_body": it.cfg.body, "sql": it.sql});
+    if let Some(t) = &it.templ {
+        v["templ"] = templ_json(t);
+    }
+    v
+}
+fn item_from_json(j: &Value, cls: &'static str, cfg: &'static LayoutCfg) -> Item {
+    let templ = if j["templ"].is_object() { crate::c04::item_from_json(&json!({"dialect": "", "rules": "", "sql": "", "templ": j["templ"]})).templ } else { None };
+    Item {
+        cls,
+        dialect: j["dialect"].as_str().unwrap_or("ansi").to_string(),
+        sel: j["rules"].as_str().unwrap_or("all").to_string(),
+        cfg,
+        sql: j["sql"].as_str().unwrap_or("").to_string(),
+        templ,
+    }
+}
+/// The linter of a templated observation: the configuration `c04::mk_config` builds for the template (ini
+/// text where the reader can carry the value, the configuration object elsewhere), plus the rule / layout
+/// options of `cfg`. Parameter sets differ per input, so these linters are not cached.
+fn templ_linter(dialect: &str, rules: &str, cfg: &LayoutCfg, t: &Templ) -> Linter {
+    if cfg.body.is_empty() {
+        return crate::c04::mk_linter(dialect, rules, Some(t));
+    }
+    let head = crate::c04::cfg_text(dialect, rules, Some(t));
+    let (core, templ_sec) = head.split_once("\n\n").unwrap_or((head.as_str(), ""));
+    let (core_keys, sections) = match cfg.body.find('[') {
+        Some(0) => ("", cfg.body),
+        Some(p) => (&cfg.body[..p], &cfg.body[p..]),
+        None => (cfg.body, ""),
+    };
+    let mut c = FluffConfig::from_source(&format!("{}\n{}{}\n{}", core, core_keys, sections, templ_sec), None);
+    let want = crate::c04::mk_config(dialect, rules, Some(t));
+    if let Some(sec) = want.raw.get("templater") {
+        c.raw.insert("templater".into(), sec.clone());
+    }
+    Linter::new(c, None, None, true)
 }
 
 fn run_one(ls: &mut Linters, it: &Item, out: &mut Buf) {
     let kind = sel_kind(&it.sel);
-    let lt = match catch(|| {
-        linter(ls, &it.dialect, &it.sel, it.cfg);
-    }) {
-        Ok(()) => linter(ls, &it.dialect, &it.sel, it.cfg),
-        Err(e) => {
-            out.hyp("configuration_loads", "diagnostic", false, json!({"dialect": it.dialect, "rules": it.sel, "cfg": it.cfg.name, "panic": e}));
-            return;
-        }
+    let own: Linter;
+    let lt: &Linter = match &it.templ {
+        Some(t) => match catch(|| templ_linter(&it.dialect, &it.sel, it.cfg, t)) {
+            Ok(l) => {
+                own = l;
+                &own
+            }
+            Err(_) => {
+                out.count("skipped_template_configuration_rejected", 1);
+                return;
+            }
+        },
+        None => match catch(|| {
+            linter(ls, &it.dialect, &it.sel, it.cfg);
+        }) {
+            Ok(()) => linter(ls, &it.dialect, &it.sel, it.cfg),
+            Err(e) => {
+                out.hyp("configuration_loads", "diagnostic", false, json!({"dialect": it.dialect, "rules": it.sel, "cfg": it.cfg.name, "panic": e}));
+                return;
+            }
+        },
     };
     let mut input = json!({"dialect": it.dialect, "rules": it.sel, "sql": it.sql});
     if !it.cfg.body.is_empty() {
         input["cfg"] = json!(it.cfg.name);
         input["cfg_body"] = json!(it.cfg.body);
+    }
+    if let Some(t) = &it.templ {
+        input["templ"] = templ_json(t);
+        out.count("runs_templated", 1);
     }
     out.count("runs", 1);
     out.count(&format!("runs_{}", kind), 1);
@@ -880,11 +1117,38 @@ fn run_one(ls: &mut Linters, it: &Item, out: &mut Buf) {
     out.count(&format!("changed_cls_{}", it.cls), 1);
     // failure class: (dialect, rule whose batch broke the text, that rule's non-default options[, where the parser stops])
     let fail = |out: &mut Buf, what: String| {
-        let (rule, sig) = culprit(lt, &it.sql, &fixed);
+        let (rule, sig, final_raw) = culprit(lt, &it.sql, &fixed);
         let opts = rule_options_in(it.cfg.body, &rule);
         let mut key = format!("c05:{}:{}{}", it.dialect, rule, if opts.is_empty() { String::new() } else { format!("[{}]", opts) });
+        // a templated source is marked as such only when its rendered text, given to the same rules as a plain
+        // file, is fixed to text that parses: otherwise the defect is the rule's, templating or not
+        if it.templ.is_some() {
+            let plain_breaks = catch(|| {
+                let plain = crate::c06::mk_linter(&it.dialect, &it.sel, it.cfg);
+                let rendered = lt.render_string(&it.sql, "<string>".into(), lt.config()).ok().and_then(|r| r.templated_file.templated_str.clone())?;
+                let out = plain.lint_string(&rendered, None, true).fix_string();
+                Some(parses_cleanly(&plain, &rendered) && !parses_cleanly(&plain, &out))
+            })
+            .ok()
+            .flatten()
+            .unwrap_or(false);
+            if !plain_breaks {
+                key.push_str(":templated");
+            }
+        }
         if let Some(sig) = sig {
             key.push_str(&format!(":{}", sig));
+        }
+        // templated source, every batch left a tree that parses, and the fixed file does not render to the
+        // final tree: what broke the text is the writing of the tree into the templated file (C04's subject:
+        // patches out of order under a templated ancestor, a placeholder fused with its neighbour), no rule
+        if it.templ.is_some() && rule == "unknown" {
+            let rerendered = catch(|| lt.render_string(&fixed, "<string>".into(), lt.config())).ok().and_then(|r| r.ok()).and_then(|r| r.templated_file.templated_str.clone());
+            if let (Some(tree), Some(re)) = (final_raw, rerendered) {
+                if tree != re {
+                    key = "c05:templated:fixed-file-is-not-the-fixed-tree".to_string();
+                }
+            }
         }
         let msg = format!("{} (first broken by a batch of {}; input {}); output: {:?}", what, rule, fnv(&it.sql), trunc(&fixed, 300));
         out.direct(it.cls, false, &key, &msg, input.clone());
@@ -895,7 +1159,7 @@ fn run_one(ls: &mut Linters, it: &Item, out: &mut Buf) {
         Err(e) => fail(out, format!("source parses cleanly, parsing the fix output fails: {}", e)),
     }
     // antecedents of the decomposition (diagnostic)
-    if is_layout_or_caps(&it.sel) && it.cfg.body.is_empty() {
+    if is_layout_or_caps(&it.sel) && it.cfg.body.is_empty() && it.templ.is_none() {
         if let (Ok(a), Ok(b)) = (lex_tokens(lt, &it.sql), lex_tokens(lt, &fixed)) {
             let (ca, cb) = (code_of(&a), code_of(&b));
             let fold = |v: &[String]| v.iter().map(|s| s.to_ascii_uppercase()).collect::<Vec<_>>();
@@ -1012,13 +1276,7 @@ pub fn main(args: &Args) {
             Some(b) if !b.is_empty() => leak_cfg(v["cfg"].as_str().unwrap_or("replayed").to_string(), b.to_string()),
             _ => default_cfg,
         };
-        items.push(Item {
-            cls: "replay",
-            dialect: v["dialect"].as_str().unwrap_or("ansi").to_string(),
-            sel: v["rules"].as_str().unwrap_or("all").to_string(),
-            cfg,
-            sql: v["sql"].as_str().unwrap_or("").to_string(),
-        });
+        items.push(item_from_json(&v, "replay", cfg));
     } else {
         let thorough = args.thorough();
         let (opt_cfgs, combos) = option_cfgs();
@@ -1036,7 +1294,7 @@ pub fn main(args: &Args) {
             }
             for (i, sel) in sels.iter().enumerate() {
                 if i < 2 || ["layout", "convention", "structure", "LT01", "CV07", "ST04"].contains(&sel.0.as_str()) {
-                    items.push(Item { cls: "probe", dialect: d.to_string(), sel: sel.0.clone(), cfg: default_cfg, sql: sql.to_string() });
+                    items.push(Item { cls: "probe", dialect: d.to_string(), sel: sel.0.clone(), cfg: default_cfg, sql: sql.to_string(), templ: None });
                 }
             }
         }
@@ -1092,7 +1350,7 @@ pub fn main(args: &Args) {
                 chosen.sort();
                 chosen.dedup();
                 for i in chosen {
-                    items.push(Item { cls, dialect: f.dialect.clone(), sel: sels[i].0.clone(), cfg: default_cfg, sql: sql.clone() });
+                    items.push(Item { cls, dialect: f.dialect.clone(), sel: sels[i].0.clone(), cfg: default_cfg, sql: sql.clone(), templ: None });
                 }
             }
         }
@@ -1102,13 +1360,13 @@ pub fn main(args: &Args) {
         for (d, v) in &stmts {
             for i in pick_relevant(v, &[], n_stmt, &mut rng) {
                 let sql = &v[i].0;
-                items.push(Item { cls: "statement", dialect: d.clone(), sel: "all".into(), cfg: default_cfg, sql: sql.clone() });
+                items.push(Item { cls: "statement", dialect: d.clone(), sel: "all".into(), cfg: default_cfg, sql: sql.clone(), templ: None });
                 for _ in 0..2 {
                     let s = &sels[rng.below(sels.len())];
-                    items.push(Item { cls: "statement", dialect: d.clone(), sel: s.0.clone(), cfg: default_cfg, sql: sql.clone() });
+                    items.push(Item { cls: "statement", dialect: d.clone(), sel: s.0.clone(), cfg: default_cfg, sql: sql.clone(), templ: None });
                 }
                 let cfg: &'static LayoutCfg = if rng.chance(1, 2) { combos[rng.below(2)] } else { &LAYOUT_CFGS[1 + rng.below(LAYOUT_CFGS.len() - 1)] };
-                items.push(Item { cls: "statement", dialect: d.clone(), sel: if rng.chance(1, 2) { "all".into() } else { "core".into() }, cfg, sql: sql.clone() });
+                items.push(Item { cls: "statement", dialect: d.clone(), sel: if rng.chance(1, 2) { "all".into() } else { "core".into() }, cfg, sql: sql.clone(), templ: None });
             }
         }
 
@@ -1122,13 +1380,13 @@ pub fn main(args: &Args) {
                 let k = if oc.triggers.is_empty() { k_any } else { k_trig };
                 for (n, i) in pick_relevant(v, oc.triggers, k, &mut rng).into_iter().enumerate() {
                     let sql = &v[i].0;
-                    items.push(Item { cls: "option", dialect: d.clone(), sel: oc.code.to_string(), cfg: oc.cfg, sql: sql.clone() });
+                    items.push(Item { cls: "option", dialect: d.clone(), sel: oc.code.to_string(), cfg: oc.cfg, sql: sql.clone(), templ: None });
                     let wide = match n % 3 {
                         0 => group_of(oc.code).to_string(),
                         1 => "all".to_string(),
                         _ => continue,
                     };
-                    items.push(Item { cls: "option", dialect: d.clone(), sel: wide, cfg: oc.cfg, sql: sql.clone() });
+                    items.push(Item { cls: "option", dialect: d.clone(), sel: wide, cfg: oc.cfg, sql: sql.clone(), templ: None });
                 }
             }
         }
@@ -1157,8 +1415,8 @@ pub fn main(args: &Args) {
                     }
                     let text = with_joint(&us, k, JOINT_STYLES[style].1, explode);
                     n_joint += 1;
-                    items.push(Item { cls: JOINT_STYLES[style].0, dialect: d.to_string(), sel: "LT01".into(), cfg: default_cfg, sql: text.clone() });
-                    items.push(Item { cls: JOINT_STYLES[style].0, dialect: d.to_string(), sel: lt_sels[n_joint % 3].into(), cfg: default_cfg, sql: text });
+                    items.push(Item { cls: JOINT_STYLES[style].0, dialect: d.to_string(), sel: "LT01".into(), cfg: default_cfg, sql: text.clone(), templ: None });
+                    items.push(Item { cls: JOINT_STYLES[style].0, dialect: d.to_string(), sel: lt_sels[n_joint % 3].into(), cfg: default_cfg, sql: text, templ: None });
                 }
             }
         }
@@ -1183,7 +1441,7 @@ pub fn main(args: &Args) {
                     let text = with_joint(&us, k, JOINT_STYLES[style].1, rng.chance(2, 3));
                     n_joint += 1;
                     let sel = if rng.chance(1, 2) { "LT01" } else { lt_sels[n_joint % 3] };
-                    items.push(Item { cls: JOINT_STYLES[style].0, dialect: d.clone(), sel: sel.into(), cfg: default_cfg, sql: text });
+                    items.push(Item { cls: JOINT_STYLES[style].0, dialect: d.clone(), sel: sel.into(), cfg: default_cfg, sql: text, templ: None });
                 }
             }
         }
@@ -1232,12 +1490,206 @@ pub fn main(args: &Args) {
         }
         for ((d, _, _), (qs, _)) in dialect_jobs.iter().zip(synth.iter()) {
             for q in qs {
-                items.push(Item { cls: "synth", dialect: d.clone(), sel: "all".into(), cfg: default_cfg, sql: q.clone() });
-                items.push(Item { cls: "synth", dialect: d.clone(), sel: "structure".into(), cfg: default_cfg, sql: q.clone() });
+                items.push(Item { cls: "synth", dialect: d.clone(), sel: "all".into(), cfg: default_cfg, sql: q.clone(), templ: None });
+                items.push(Item { cls: "synth", dialect: d.clone(), sel: "structure".into(), cfg: default_cfg, sql: q.clone(), templ: None });
                 for _ in 0..3 {
                     let s = &synth_sels[rng.below(synth_sels.len())];
-                    items.push(Item { cls: "synth", dialect: d.clone(), sel: s.0.clone(), cfg: s.1, sql: q.clone() });
+                    items.push(Item { cls: "synth", dialect: d.clone(), sel: s.0.clone(), cfg: s.1, sql: q.clone(), templ: None });
                 }
+            }
+        }
+
+        // tokens of a text in a dialect (fixture statements were lexed by the harvest)
+        let toks_of = |d: &str, text: &str| -> Option<Vec<(u8, String)>> {
+            if let Some(t) = stmt_toks.get(text) {
+                return Some(t.clone());
+            }
+            PROBE_LEX.with(|c| {
+                let mut c = c.borrow_mut();
+                let lt = linter(&mut c, d, "LT01", default_cfg);
+                lex_tokens(lt, text).ok()
+            })
+        };
+        let kw_of: BTreeMap<String, ahash::AHashSet<&'static str>> = DIALECTS
+            .iter()
+            .map(|d| {
+                (d.to_string(), PROBE_LEX.with(|c| {
+                    let mut c = c.borrow_mut();
+                    keywords(linter(&mut c, d, "LT01", default_cfg))
+                }))
+            })
+            .collect();
+        let snippets: Vec<(String, String)> = {
+            let mut seen: HashSet<String> = HashSet::new();
+            rule_snippets().into_iter().filter(|(_, s)| s.len() <= 1500 && s.is_ascii() && seen.insert(s.clone())).collect()
+        };
+        let is_single = |code: &str| sels.iter().any(|s| s.0 == code && s.1 == "single");
+        let snip_stride = if thorough { 1usize } else { 2usize };
+
+        // ---- class `snippet`: the repository's own cases of each rule (what the rule is known to act on),
+        // under the rule, under `all`, and under every non-default option value of the rule - alone and inside `all`
+        for (k, (file, sql)) in snippets.iter().enumerate() {
+            if (k + args.seed as usize) % snip_stride != 0 {
+                continue;
+            }
+            let rule = snippet_rule(file);
+            let sql = if sql.ends_with('\n') { sql.clone() } else { format!("{}\n", sql) };
+            items.push(Item { cls: "snippet", dialect: "ansi".into(), sel: "all".into(), cfg: default_cfg, sql: sql.clone(), templ: None });
+            if is_single(&rule) {
+                items.push(Item { cls: "snippet", dialect: "ansi".into(), sel: rule.clone(), cfg: default_cfg, sql: sql.clone(), templ: None });
+            }
+            for oc in opt_cfgs.iter().filter(|o| o.code == rule && (o.only.is_empty() || o.only.contains(&"ansi"))) {
+                items.push(Item { cls: "snippet", dialect: "ansi".into(), sel: "all".into(), cfg: oc.cfg, sql: sql.clone(), templ: None });
+                items.push(Item { cls: "snippet", dialect: "ansi".into(), sel: if rng.chance(1, 2) { rule.clone() } else { group_of(&rule).to_string() }, cfg: oc.cfg, sql: sql.clone(), templ: None });
+            }
+        }
+
+        // ---- class `script`: several statements in one file, each ended in one of the ways of TERMINATORS
+        // (terminator on the statement's line / on its own line / before or behind a comment / nothing at the
+        // end of the file); statements as in the fixtures or one token group per line. Under `all` with the
+        // default configuration, with every configuration of the terminator rule and a combined one, and under
+        // narrower selections / other rules' options by lot.
+        let cv06: Vec<&'static LayoutCfg> = opt_cfgs.iter().filter(|o| o.code == "CV06").map(|o| o.cfg).collect();
+        let any_opt: Vec<&'static LayoutCfg> = opt_cfgs.iter().filter(|o| o.only.is_empty()).map(|o| o.cfg).collect();
+        let (n_scripts, n_sys) = if thorough { (300usize, 30usize) } else { (20usize, 3usize) };
+        for d in DIALECTS.iter() {
+            let mut pool: Vec<String> = stmts.get(*d).map(|v| v.iter().filter(|s| s.0.len() <= 300).map(|s| s.0.clone()).collect()).unwrap_or_default();
+            if *d == "ansi" {
+                pool.extend(snippets.iter().filter(|(_, s)| s.len() <= 300 && !s.contains(';')).map(|(_, s)| s.clone()));
+            }
+            if pool.len() < 2 {
+                continue;
+            }
+            for n in 0..n_scripts {
+                let n_parts = rng.range(2, 3);
+                let mut parts: Vec<String> = vec![];
+                for _ in 0..n_parts {
+                    let p = pool[rng.below(pool.len())].clone();
+                    // a statement on one line is no subject of the multi-line options: lay half of those out over lines
+                    let lay_out = rng.chance(1, 4) || (!strip_terminator(&p).contains('\n') && rng.chance(1, 2));
+                    parts.push(match (lay_out, toks_of(d, &p)) {
+                        (true, Some(t)) => exploded(&t),
+                        _ => p,
+                    });
+                }
+                let mut ends: Vec<Option<usize>> = (0..n_parts).map(|_| Some(rng.below(TERMINATORS.len()))).collect();
+                if rng.chance(1, 3) {
+                    ends[n_parts - 1] = None;
+                }
+                let mut texts: Vec<String> = vec![script(&parts, &ends)];
+                if n < n_sys {
+                    // every way of ending the first statement
+                    for k in 0..TERMINATORS.len() {
+                        ends[0] = Some(k);
+                        texts.push(script(&parts, &ends));
+                    }
+                }
+                for (i, text) in texts.into_iter().enumerate() {
+                    if text.len() > 1500 {
+                        continue;
+                    }
+                    items.push(Item { cls: "script", dialect: d.to_string(), sel: "all".into(), cfg: default_cfg, sql: text.clone(), templ: None });
+                    for c in &cv06 {
+                        items.push(Item { cls: "script", dialect: d.to_string(), sel: "all".into(), cfg: *c, sql: text.clone(), templ: None });
+                    }
+                    if i > 0 {
+                        continue;
+                    }
+                    items.push(Item { cls: "script", dialect: d.to_string(), sel: "all".into(), cfg: combos[rng.below(2)], sql: text.clone(), templ: None });
+                    items.push(Item { cls: "script", dialect: d.to_string(), sel: "all".into(), cfg: any_opt[rng.below(any_opt.len())], sql: text.clone(), templ: None });
+                    let narrow = ["convention", "layout", "core", "CV06"][rng.below(4)];
+                    items.push(Item { cls: "script", dialect: d.to_string(), sel: narrow.into(), cfg: if rng.chance(1, 4) { default_cfg } else { cv06[rng.below(cv06.len())] }, sql: text.clone(), templ: None });
+                }
+            }
+        }
+
+        // ---- classes `templated-*`: sources of the placeholder templater whose rendered text parses.
+        // token-level twins (`templatise_toks`: the template renders to the text it was made from) of the rule
+        // cases, of fixture statements (as is / one token group per line / scrambled gaps) and of generated
+        // queries; `c04::templatise` (literals, partial identifiers, padded / multi-token values) over the
+        // fixture statements; `c04::gen_shape` (placeholders in chosen syntactic roles, every style).
+        let twin = |toks: &[(u8, String)], d: &str, single: bool, rng: &mut Rng| -> Option<(String, Templ)> {
+            let kw = &kw_of[d];
+            let style = PH_STYLES[rng.below(PH_STYLES.len())];
+            let n = templatise_toks(toks, kw, style, &mut Rng::new(1), &mut |_| false).2;
+            if n == 0 {
+                return None;
+            }
+            let only = rng.below(n);
+            let lots: Vec<bool> = (0..64).map(|_| rng.chance(1, 2)).collect();
+            let (sql, t, _) = templatise_toks(toks, kw, style, &mut Rng::new(rng.next()), &mut |k| if single { k == only } else { lots[k % 64] });
+            if t.params.is_empty() { None } else { Some((sql, t)) }
+        };
+        for (k, (file, sql)) in snippets.iter().enumerate() {
+            if (k + args.seed as usize) % snip_stride != 0 {
+                continue;
+            }
+            let Some(toks) = toks_of("ansi", sql) else { continue };
+            let rule = snippet_rule(file);
+            // a random subset of the candidates / exactly one of them (quick: one of the two variants per case)
+            for single in [false, true] {
+                if !thorough && single != ((k / snip_stride) % 2 == 1) {
+                    continue;
+                }
+                let Some((tsql, t)) = twin(&toks, "ansi", single, &mut rng) else { continue };
+                let tsql = if tsql.ends_with('\n') { tsql } else { format!("{}\n", tsql) };
+                items.push(Item { cls: "templated-snippet", dialect: "ansi".into(), sel: "all".into(), cfg: default_cfg, sql: tsql.clone(), templ: Some(t.clone()) });
+                if is_single(&rule) {
+                    items.push(Item { cls: "templated-snippet", dialect: "ansi".into(), sel: if rng.chance(2, 3) { rule.clone() } else { group_of(&rule).to_string() }, cfg: default_cfg, sql: tsql.clone(), templ: Some(t.clone()) });
+                }
+                if rng.chance(1, 4) {
+                    let own: Vec<&OptCfg> = opt_cfgs.iter().filter(|o| o.code == rule && o.only.is_empty()).collect();
+                    let cfg = if own.is_empty() { combos[rng.below(2)] } else { own[rng.below(own.len())].cfg };
+                    items.push(Item { cls: "templated-snippet", dialect: "ansi".into(), sel: "all".into(), cfg, sql: tsql.clone(), templ: Some(t.clone()) });
+                }
+            }
+        }
+        let n_ts = if thorough { 80usize } else { 10usize };
+        const C04_STYLES: [&str; 10] = ["colon", "colon_nospaces", "numeric_colon", "pyformat", "dollar", "question_mark", "numeric_dollar", "percent", "ampersand", "flyway_var"];
+        for (d, v) in &stmts {
+            let small: Vec<(String, String)> = v.iter().filter(|s| s.0.len() <= 400).cloned().collect();
+            for i in pick_relevant(&small, &[], n_ts, &mut rng) {
+                let text = &small[i].0;
+                let Some(toks) = toks_of(d, text) else { continue };
+                let layouts: Vec<String> = vec![text.clone(), exploded(&toks), scramble(&toks, &mut rng)];
+                for (li, lay) in layouts.iter().enumerate() {
+                    let Some(lt) = toks_of(d, lay) else { continue };
+                    let mut made: Vec<(String, Templ)> = vec![];
+                    made.extend(twin(&lt, d, false, &mut rng));
+                    if li < 2 {
+                        let wide = rng.chance(1, 2);
+                        let style = C04_STYLES[rng.below(C04_STYLES.len())];
+                        made.extend(templatise(&mut rng, lay, style, wide));
+                    }
+                    for (tsql, t) in made {
+                        items.push(Item { cls: "templated-statement", dialect: d.clone(), sel: "all".into(), cfg: default_cfg, sql: tsql.clone(), templ: Some(t.clone()) });
+                        let s = &sels[rng.below(sels.len())];
+                        let cfg = if rng.chance(1, 4) { any_opt[rng.below(any_opt.len())] } else { default_cfg };
+                        items.push(Item { cls: "templated-statement", dialect: d.clone(), sel: if cfg.body.is_empty() { s.0.clone() } else { "all".into() }, cfg, sql: tsql, templ: Some(t) });
+                    }
+                }
+            }
+        }
+        let n_tq = if thorough { 200usize } else { 20usize };
+        for ((d, _, _), (qs, _)) in dialect_jobs.iter().zip(synth.iter()) {
+            for q in qs.iter().take(n_tq) {
+                let Some(toks) = toks_of(d, q) else { continue };
+                let Some((tsql, t)) = twin(&toks, d, rng.chance(1, 3), &mut rng) else { continue };
+                items.push(Item { cls: "templated-synth", dialect: d.clone(), sel: "all".into(), cfg: default_cfg, sql: tsql.clone(), templ: Some(t.clone()) });
+                let s = ["layout", "structure", "core", "aliasing", "convention", "references", "ambiguous"][rng.below(7)];
+                items.push(Item { cls: "templated-synth", dialect: d.clone(), sel: s.into(), cfg: default_cfg, sql: tsql, templ: Some(t) });
+            }
+        }
+        let known = sqruff_lib::templaters::placeholder::get_known_styles();
+        let matches = |style: &str, sql: &str| known.get(style).map(|re| re.find_iter(sql).filter(|m| m.is_ok()).count());
+        let n_shapes = if thorough { 3000usize } else { 300usize };
+        let (mut made, mut tries) = (0, 0);
+        while made < n_shapes && tries < n_shapes * 5 {
+            tries += 1;
+            if let Some(it) = gen_shape(&mut rng, &matches) {
+                made += 1;
+                let sel = if rng.chance(1, 2) { "all".to_string() } else { sels[rng.below(sels.len())].0.clone() };
+                items.push(Item { cls: "templated-shapes", dialect: it.dialect, sel, cfg: default_cfg, sql: it.sql, templ: it.templ });
             }
         }
     }
@@ -1287,7 +1739,7 @@ pub fn main(args: &Args) {
         let out_path = scratch.join(format!("sqv-c05-{}-{}.out.jsonl", std::process::id(), k));
         let js: Vec<Vec<Value>> = shard
             .iter()
-            .map(|u| u.iter().map(|it| json!({"cls": it.cls, "dialect": it.dialect, "rules": it.sel, "cfg": it.cfg.name, "cfg_body": it.cfg.body, "sql": it.sql})).collect())
+            .map(|u| u.iter().map(item_json).collect())
             .collect();
         std::fs::write(&items_path, serde_json::to_vec(&js).unwrap()).expect("write shard");
         let st = std::process::Command::new(&exe)
@@ -1364,13 +1816,7 @@ fn run_items_file(args: &Args, path: &str) {
                     let name = j["cfg"].as_str().unwrap_or("default").to_string();
                     let body = j["cfg_body"].as_str().unwrap_or("").to_string();
                     let cls = j["cls"].as_str().unwrap_or("replay").to_string();
-                    Item {
-                        cls: *classes.entry(cls.clone()).or_insert_with(|| Box::leak(cls.into_boxed_str())),
-                        dialect: j["dialect"].as_str().unwrap_or("ansi").to_string(),
-                        sel: j["rules"].as_str().unwrap_or("all").to_string(),
-                        cfg: *cfgs.entry(name.clone()).or_insert_with(|| leak_cfg(name, body)),
-                        sql: j["sql"].as_str().unwrap_or("").to_string(),
-                    }
+                    item_from_json(j, *classes.entry(cls.clone()).or_insert_with(|| Box::leak(cls.into_boxed_str())), *cfgs.entry(name.clone()).or_insert_with(|| leak_cfg(name, body)))
                 })
                 .collect()
         })
